@@ -224,9 +224,8 @@ def first_matching(order, request, is_tls, waptop, headers):
 
 
 def norm(s):
-    """Selector normal form: one trailing slash dropped, leading slash added."""
-    if len(s) > 0 and s[-1] == "/":
-        s = s[:-1]
+    """Selector normal form: trailing slashes dropped, leading slash added."""
+    s = s.rstrip("/")
     if len(s) == 0 or s[0] != "/":
         s = "/" + s
     return s
